@@ -140,10 +140,75 @@ Proof.
   destruct (is_empty (url_port hp)); [discriminate|]. exact H1.
 Qed.
 
-Lemma canon_canonical_addr sch hp : canon_hp hp = true -> canonical_addr sch hp = hp.
+Lemma canon_canonical_addr idna sch hp :
+  canon_hp hp = true -> idna (url_hostname hp) = url_hostname hp -> canonical_addr idna sch hp = hp.
 Proof.
-  unfold canon_hp, canonical_addr. intros H. apply andb_true_iff in H as [H1 H2].
+  unfold canon_hp, canonical_addr. intros H Hi. rewrite Hi. apply andb_true_iff in H as [H1 H2].
   apply str_eqb_eq in H1. destruct (is_empty (url_port hp)); [discriminate|]. exact H1.
+Qed.
+
+Lemma url_hostname_join h p :
+  has_byte 91 h = false -> has_byte 93 h = false -> valid_port16 p = true ->
+  url_hostname (join_host_port h p) = h.
+Proof.
+  intros H1 H2 Hv. unfold valid_port16 in Hv. apply andb_true_iff in Hv as [Hv _].
+  apply andb_true_iff in Hv as [_ Hd]. unfold url_hostname. rewrite (url_split_join h p H1 H2 Hd). reflexivity.
+Qed.
+
+(* ------------------------------------------------------------------ ASCII-ness is inherited by the pieces *)
+Lemma ascii_firstn n s : is_ascii s = true -> is_ascii (firstn n s) = true.
+Proof.
+  unfold is_ascii. revert n; induction s as [|c s IH]; intros [|n] H; try reflexivity.
+  cbn [forallb firstn] in *. apply andb_true_iff in H as [Hc Hs]. rewrite Hc. cbn [andb]. apply IH, Hs.
+Qed.
+
+Lemma ascii_skipn n s : is_ascii s = true -> is_ascii (skipn n s) = true.
+Proof.
+  unfold is_ascii. revert n; induction s as [|c s IH]; intros [|n] H; try reflexivity; [exact H|].
+  cbn [forallb skipn] in *. apply andb_true_iff in H as [_ Hs]. apply IH, Hs.
+Qed.
+
+Lemma ascii_rev s : is_ascii s = true -> is_ascii (rev s) = true.
+Proof.
+  unfold is_ascii. rewrite !forallb_forall. intros H x Hx. apply H. apply in_rev. exact Hx.
+Qed.
+
+Lemma ascii_trim_left s : is_ascii s = true -> is_ascii (trim_left s) = true.
+Proof.
+  induction s as [|c s IH]; intros H; [reflexivity|]. cbn [trim_left].
+  destruct (is_space c); [|exact H]. apply IH. unfold is_ascii in *. cbn [forallb] in H.
+  apply andb_true_iff in H as [_ H]. exact H.
+Qed.
+
+Lemma ascii_trim_space s : is_ascii s = true -> is_ascii (trim_space s) = true.
+Proof.
+  intros H. unfold trim_space. apply ascii_rev, ascii_trim_left, ascii_rev, ascii_trim_left, H.
+Qed.
+
+Lemma ascii_cut_byte c s x y : is_ascii s = true -> cut_byte c s = Some (x, y) -> is_ascii x = true /\ is_ascii y = true.
+Proof.
+  revert x y; induction s as [|d s IH]; intros x y H E; [discriminate|].
+  unfold is_ascii in H. cbn [forallb] in H. apply andb_true_iff in H as [Hd Hs]. cbn [cut_byte] in E.
+  destruct (N.eqb c d).
+  - inversion E; subst. split; [reflexivity | exact Hs].
+  - destruct (cut_byte c s) as [[x' y']|]; [|discriminate]. inversion E; subst.
+    destruct (IH x' y Hs eq_refl) as [Hx Hy]. split; [|exact Hy].
+    unfold is_ascii. cbn [forallb]. rewrite Hd. exact Hx.
+Qed.
+
+Lemma ascii_split_host s h p : is_ascii s = true -> split_host_port s = Some (h, p) -> is_ascii h = true.
+Proof.
+  intros H. unfold split_host_port. destruct (last_index 58 s) as [i|]; [|discriminate].
+  destruct (first_is 91 s).
+  - destruct (index_byte 93 s) as [e|]; [|discriminate].
+    destruct (Nat.eqb (S e) (length s)); [discriminate|].
+    destruct (Nat.eqb (S e) i); [|discriminate].
+    destruct (has_byte 91 (skipn 1 s)); [discriminate|].
+    destruct (has_byte 93 (skipn (S e) s)); [discriminate|].
+    intros E; inversion E; subst. apply ascii_firstn. exact (ascii_skipn 1 s H).
+  - destruct (has_byte 58 (firstn i s)); [discriminate|].
+    destruct (has_byte 91 s); [discriminate|]. destruct (has_byte 93 s); [discriminate|].
+    intros E; inversion E; subst. apply ascii_firstn, H.
 Qed.
 
 (* ------------------------------------------------------------------ SplitHostPort of a joined simple address *)
